@@ -164,3 +164,12 @@ check("C19", "exploration",
       minima={"programs[vec]": 10000, "programs[arrayvec16]": 10000, "programs[arrayvec64]": 10000, "programs[slice]": 10000,
               "programs[slice-ref]": 10000, "programs[slice-capped]": 10000, "nested_views": 50000, "capped_views": 20000,
               "reader_fills": 20000, "early_exits": 5000, "prefix_commits_on_failure": 10000})
+
+check("C18", "exploration",
+      [native("quick")],
+      [native("thorough"), native("thorough", profile="release", name="native-release"), miri(shards=4)],
+      minima={"kinds": 13, "wellformed_accepted": 30000, "parse_calls": 20000000, "info_parse_some": 5000000, "info_parse_none": 5000000,
+              "truncations": 5000000, "prng_after_header": 500000, "numeric_fields_swept": 300000, "offset_packetno_sweeps": 500000,
+              "merge_schedules": 3000000, "merge_duplicates_injected": 5000000, "complete_infos_compared": 2000000,
+              "merge_cases_exhaustive": 20000, "merge_cases_prng": 10000, "merge_cases_64_clients_legacy": 5000,
+              "merge_parts_max_v6ex": 64, "merge_parts_max_v664": 64})
